@@ -289,6 +289,11 @@ def canon(v: Any) -> Any:
     return ["py", cls.__name__, repr(v)]
 
 
+LEAF_VALIDATORS = {
+    "not13": (lambda v: v[0] in ("int", "float") and v[1] == 13, "unlucky 13"),
+    "not_abc": (lambda v: v == ["str", "abc"], "no abc"),
+}
+
 STD_IMAGES = {
     "uuid": ["12345678-1234-5678-1234-567812345678", "00000000-0000-0000-0000-000000000000"],
     "date": ["2020-01-02", "1999-12-31"],
@@ -587,7 +592,11 @@ class Model:
                 raise Unspecified("std image outside the modelled pool")
             return None, Err([f"expected type {'number' if want is float else 'string'}, found {jname(d)}"])
         if k == "ann":
-            return self.des(t["of"], d, merge_constraints(t["c"], c))
+            v, e = self.des(t["of"], d, merge_constraints(t.get("c"), c))
+            if e is None and t.get("val") and LEAF_VALIDATORS[t["val"]][0](v):
+                # validators(...) metadata: run on the deserialized value once the node itself is valid
+                return None, Err([LEAF_VALIDATORS[t["val"]][1]])
+            return v, e
         if k == "newtype":
             nt = self.prog["newtypes"][t["i"]]
             return self.des(nt["of"], d, merge_constraints(nt.get("c"), c))
@@ -1333,6 +1342,8 @@ def conforms(prog: dict, t: dict, v, c: Optional[dict] = None, depth: int = 0) -
         return True
     k, tag = t["k"], v[0]
     if k == "ann":
+        if t.get("val") and LEAF_VALIDATORS[t["val"]][0](v):
+            return False
         try:
             return conforms(prog, t["of"], v, merge_constraints(t["c"], c), depth + 1)
         except Unspecified:
